@@ -195,7 +195,7 @@ func check(c modedit.Case) pbt.Result {
 		if e.ID == 0 {
 			continue
 		}
-		b, s := fmt.Sprintf("B%d", e.ID), fmt.Sprintf("S%d", e.ID)
+		b, s := fmt.Sprintf("B%d", e.ID), c.Start.SuffixOf(e.ID)
 		wantSuffix := s
 		if e.Indirect {
 			wantSuffix = "indirect; " + s
@@ -205,8 +205,8 @@ func check(c modedit.Case) pbt.Result {
 		for _, d := range out.Reparsed {
 			if d.Verb == e.Verb && d.Canon == e.Canon() && hasWord(d.Before, b) {
 				seenSuffix = d.Suffix
-				if len(d.Suffix) == 1 && d.Suffix[0] == wantSuffix {
-					found = true
+				if len(d.Suffix) == 1 && strings.Join(strings.Fields(d.Suffix[0]), " ") == strings.Join(strings.Fields(wantSuffix), " ") {
+					found = true // (compared up to runs of blanks: the marker may be spelled with other spacing)
 				}
 			}
 		}
